@@ -353,7 +353,11 @@ def concrete_vals(test_src):
 def playback(h, overlay, target_dir, logdir, replay_path):
     """Re-run the failing harness with concrete playback, write the generated unit test(s) to
     replay_path and execute them natively (dev + release). Returns (reproduced, info, vals)."""
-    r = run_kani(h, overlay, target_dir, logdir,
+    import copy
+    hp = copy.copy(h)  # the trace-producing run needs more memory than the plain verdict
+    hp.mem_gb = max(h.mem_gb * 2, 24)
+    hp.timeout = max(h.timeout, 900)
+    r = run_kani(hp, overlay, target_dir, logdir,
                  extra=["-Z", "concrete-playback", "--concrete-playback=print"], suffix=".playback", abortable=False)
     text = open(r["log"], errors="replace").read()
     tests = extract_playback(text)
